@@ -4,6 +4,8 @@
 //   universe (shared/spec_universe.rs) that ProgramRegistry ACCEPTS is turned into a one-invocation
 //   program
 //        f(params = the libfunc's input types):  L(params) { fallthrough(..) B1(..) .. }
+//        (twice: with the parameters themselves as arguments, and with every argument copied to a
+//         temporary first, i.e. ap-based references on the stack top)
 //        each branch:  branch_align;  Lk: jump() { Lk() }        (results stay alive, nothing returns)
 //   and run through calc_metadata_ap_change_only + compile (gas metadata cannot exist for a
 //   function that never returns; the per-libfunc cost table is evaluated directly).
@@ -55,7 +57,7 @@ impl InvocationApChangeInfoProvider for Provider<'_> {
 }
 
 /// The one-invocation program around the (accepted) declaration `L` of `p`.
-fn synthesize(p: &Program, registry: &ProgramRegistry<CoreType, CoreLibfunc>) -> Option<Program> {
+fn synthesize(p: &Program, registry: &ProgramRegistry<CoreType, CoreLibfunc>, temps: bool) -> Option<(Program, usize)> {
     let lf = registry.get_libfunc(&"L".into()).ok()?;
     let mut q = p.clone();
     q.statements.clear();
@@ -65,22 +67,35 @@ fn synthesize(p: &Program, registry: &ProgramRegistry<CoreType, CoreLibfunc>) ->
     let params: Vec<Param> = lf.param_signatures().iter().enumerate().map(|(i, ps)| Param { id: VarId::new(i as u64), ty: ps.ty.clone() }).collect();
     let nb = lf.branch_signatures().len();
     let mut next_var = 1000u64;
-    // layout: 0 = invocation; branch b block = [align?] [jump-to-self]
+    // optional prologue: every argument is copied to a temporary first (ap-based references, on the stack top)
+    let mut args: Vec<VarId> = params.iter().map(|p| p.id.clone()).collect();
+    if temps {
+        if params.is_empty() { return None; }
+        for (i, prm) in params.iter().enumerate() {
+            let lid = format!("verif_st{i}");
+            q.libfunc_declarations.push(LibfuncDeclaration { id: lid.as_str().into(), long_id: ConcreteLibfuncLongId { generic_id: "store_temp".into(), generic_args: vec![cairo_lang_sierra::program::GenericArg::Type(prm.ty.clone())] } });
+            let v = VarId::new(500 + i as u64);
+            q.statements.push(Statement::Invocation(Invocation { libfunc_id: lid.as_str().into(), args: vec![prm.id.clone()], branches: vec![BranchInfo { target: BranchTarget::Fallthrough, results: vec![v.clone()] }] }));
+            args[i] = v;
+        }
+    }
+    let at = q.statements.len();
+    // layout: `at` = invocation; branch b block = [align?] [jump-to-self]
     let per = if nb > 1 { 2 } else { 1 };
     let mut branches = vec![];
     for (b, bs) in lf.branch_signatures().iter().enumerate() {
         let results: Vec<VarId> = bs.vars.iter().map(|_| { next_var += 1; VarId::new(next_var) }).collect();
-        let target = if b == 0 { BranchTarget::Fallthrough } else { BranchTarget::Statement(StatementIdx(1 + b * per)) };
+        let target = if b == 0 { BranchTarget::Fallthrough } else { BranchTarget::Statement(StatementIdx(at + 1 + b * per)) };
         branches.push(BranchInfo { target, results });
     }
-    q.statements.push(Statement::Invocation(Invocation { libfunc_id: "L".into(), args: params.iter().map(|p| p.id.clone()).collect(), branches }));
+    q.statements.push(Statement::Invocation(Invocation { libfunc_id: "L".into(), args, branches }));
     for b in 0..nb {
         if nb > 1 { q.statements.push(Statement::Invocation(Invocation { libfunc_id: "verif_align".into(), args: vec![], branches: vec![BranchInfo { target: BranchTarget::Fallthrough, results: vec![] }] })); }
         let me = q.statements.len();
         q.statements.push(Statement::Invocation(Invocation { libfunc_id: "verif_jump".into(), args: vec![], branches: vec![BranchInfo { target: BranchTarget::Statement(StatementIdx(me)), results: vec![] }] }));
     }
     q.funcs.push(Function::new("verif_f".into(), params, vec![], StatementIdx(0)));
-    Some(q)
+    Some((q, at))
 }
 
 #[path = "../shared/stmt_walk.rs"]
@@ -132,7 +147,8 @@ fn one(part: &mut Part, name: &str, p: &Program) {
         }
     }
     let trace = std::env::var("VERIF_SWEEP_TRACE").is_ok();
-    let Some(q) = synthesize(p, &reg) else { return };
+    for temps in [false, true] {
+    let Some((q, at_stmt)) = synthesize(p, &reg, temps) else { continue };
     let text = format!("{q}").replace('\n', " ");
     // the whole pipeline, never unwinding
     let r = catch_unwind(AssertUnwindSafe(|| {
@@ -142,24 +158,24 @@ fn one(part: &mut Part, name: &str, p: &Program) {
         let casm = compile(&q, &info, &md, SierraToCasmConfig { gas_usage_check: false, max_bytecode_size: usize::MAX }).ok()?;
         Some((info, md, casm))
     }));
-    let (info, md, casm) = match r { Err(e) => { let m = msg(e); fail(part, "C14", format!("{name}: {}", m.chars().take(70).collect::<String>()), text, format!("the pipeline panicked on a one-invocation program: {m}")); return; } Ok(None) => { if trace { eprintln!("SWEEP not-compiled {}", p.libfunc_declarations[0].long_id); } return; } Ok(Some(x)) => x };
+    let (info, md, casm) = match r { Err(e) => { let m = msg(e); fail(part, "C14", format!("{name}: {}", m.chars().take(70).collect::<String>()), text, format!("the pipeline panicked on a one-invocation program: {m}")); continue; } Ok(None) => { if trace { eprintln!("SWEEP not-compiled {}", p.libfunc_declarations[0].long_id); } continue; } Ok(Some(x)) => x };
     part.compiled += 1;
-    let Ok(lf) = info.registry.get_libfunc(&"L".into()) else { return };
-    if excluded(lf) { return; }
-    let Ok(circuits) = CircuitsInfo::new(&info.registry, q.type_declarations.iter().map(|td| &td.id)) else { return };
+    let Ok(lf) = info.registry.get_libfunc(&"L".into()) else { continue };
+    if excluded(lf) { continue; }
+    let Ok(circuits) = CircuitsInfo::new(&info.registry, q.type_declarations.iter().map(|td| &td.id)) else { continue };
     let mut at: HashMap<usize, usize> = HashMap::new();
     let mut o = 0usize;
     for (i, ins) in casm.instructions.iter().enumerate() { at.insert(o, i); o += ins.body.op_size(); }
     let stmts = &casm.debug_info.sierra_statement_info;
-    let (start, end) = (stmts[0].start_offset, stmts[0].end_offset);
-    let Statement::Invocation(inv) = &q.statements[0] else { return };
-    let Some(paths) = walk(&casm, &at, start, end) else { if trace { eprintln!("SWEEP walk-undecided {}", p.libfunc_declarations[0].long_id); } return; };
+    let (start, end) = (stmts[at_stmt].start_offset, stmts[at_stmt].end_offset);
+    let Statement::Invocation(inv) = &q.statements[at_stmt] else { continue };
+    let Some(paths) = walk(&casm, &at, start, end) else { if trace { eprintln!("SWEEP walk-undecided {}", p.libfunc_declarations[0].long_id); } continue; };
     if trace { eprintln!("SWEEP compiled {} branches={} paths={}", p.libfunc_declarations[0].long_id, inv.branches.len(), paths.len()); }
     // exit offset of each branch
     let mut exit_of: Vec<usize> = vec![];
     for br in &inv.branches { exit_of.push(match br.target { BranchTarget::Fallthrough => end, BranchTarget::Statement(t) => stmts[t.0].start_offset }); }
-    if exit_of.iter().collect::<HashSet<_>>().len() != exit_of.len() { return; }
-    let provider = Provider { info: &info, md: &md, circuits: &circuits, idx: StatementIdx(0) };
+    if exit_of.iter().collect::<HashSet<_>>().len() != exit_of.len() { continue; }
+    let provider = Provider { info: &info, md: &md, circuits: &circuits, idx: StatementIdx(at_stmt) };
     // C17
     if let Ok(declared) = catch_unwind(AssertUnwindSafe(|| core_libfunc_ap_change(lf, &provider))) {
         if declared.len() == inv.branches.len() {
@@ -173,7 +189,7 @@ fn one(part: &mut Part, name: &str, p: &Program) {
         }
     }
     // C04
-    if let Ok(costs) = catch_unwind(AssertUnwindSafe(|| core_libfunc_cost(&md.gas_info, StatementIdx(0), lf, &provider))) {
+    if let Ok(costs) = catch_unwind(AssertUnwindSafe(|| core_libfunc_cost(&md.gas_info, StatementIdx(at_stmt), lf, &provider))) {
         if costs.len() == inv.branches.len() {
             let price = |t: &CostTokenType| -> i64 { match t { CostTokenType::Const => 1, CostTokenType::Pedersen => 4050, CostTokenType::Poseidon => 491, CostTokenType::Bitwise => 583, CostTokenType::EcOp => 4085, CostTokenType::AddMod => 230, CostTokenType::MulMod => 604, CostTokenType::Blake => 3334, _ => 0 } };
             for (b, c) in costs.iter().enumerate() {
@@ -184,6 +200,7 @@ fn one(part: &mut Part, name: &str, p: &Program) {
                 }
             }
         }
+    }
     }
 }
 
